@@ -20,3 +20,10 @@ Definition argv_ok (argv : list nat) (ranobs argsobs : list nat) : bool :=
   list_eqb (targets_of argv) ranobs && list_eqb (task_args argv) argsobs.
 
 Definition bad_ids {A} (p : A -> bool) (cases : list (N * A)) : list N := map fst (filter (fun c => negb (p (snd c))) cases).
+
+(* targets with effects: [bad] fail, [cancelling] succeed but leave the runner cancelled; observed: the targets that ran, whether a target
+   was refused (`context canceled`), the exit status *)
+Definition targets_e_ok (bad cancelling : list nat) (targets ranobs : list nat) (refusedobs : bool) (exitobs : nat) : bool :=
+  let eff t := if existsb (Nat.eqb t) bad then EFail else if existsb (Nat.eqb t) cancelling then ECancelOk else EOk in
+  let r := run_targets_e eff targets in
+  list_eqb (ran_e r) ranobs && Bool.eqb (match refused_e r with Some _ => true | None => false end) refusedobs && Nat.eqb (exit_e r) exitobs.
